@@ -16,8 +16,11 @@ import (
 	"github.com/yorkie-team/yorkie/api/types"
 	"github.com/yorkie-team/yorkie/pkg/document"
 	"github.com/yorkie-team/yorkie/pkg/document/change"
+	"github.com/yorkie-team/yorkie/pkg/document/crdt"
 	"github.com/yorkie-team/yorkie/pkg/document/json"
+	"github.com/yorkie-team/yorkie/pkg/document/operations"
 	"github.com/yorkie-team/yorkie/pkg/document/presence"
+	"github.com/yorkie-team/yorkie/pkg/document/time"
 	"github.com/yorkie-team/yorkie/pkg/key"
 	"github.com/yorkie-team/yorkie/server/documents"
 	"github.com/yorkie-team/yorkie/server/packs"
@@ -1094,7 +1097,77 @@ func (r *Run) Finish(ctx context.Context) {
 			out.Pres = append(out.Pres, nil)
 		}
 	}
+	if r.H.ProbeLWW {
+		for i, rp := range r.R {
+			if rp.A != nil && rp.A.Attached {
+				for _, msg := range probeLWW(rp.A.Doc) {
+					r.problem("clone-probe-differs", -1, "client %d: %s", i, msg)
+				}
+			}
+		}
+	}
 	r.collectLog(ctx)
+}
+
+// probeLWW sends the document one more remote change per object member that was positioned after
+// it was created (a member restored by an undo): a Set of the same key by an unknown actor, made
+// concurrently with that positioning and older than it (and newer than the member's creation).
+// Such a Set loses against the member; it has to lose on the copy handed to callbacks exactly as
+// on the document.  This is an ordinary remote change pack; what it exposes is a copy that lost
+// the member's position ticket.
+func probeLWW(d *document.Document) []string {
+	var out []string
+	obj, ok := d.InternalDocument().RootObject().Get("o").(*crdt.Object)
+	if !ok || obj == nil {
+		return nil
+	}
+	probeActor, err := time.ActorIDFromHex("0000000000000000000000ee")
+	if err != nil {
+		return nil
+	}
+	serverSeq := d.Checkpoint().ServerSeq
+	n := 0
+	keys := make([]string, 0)
+	for k := range obj.Members() {
+		keys = append(keys, k)
+	}
+	sort.Strings(keys)
+	for _, k := range keys {
+		el := obj.Get(k)
+		if el == nil || el.MovedAt() == nil || !el.MovedAt().After(el.CreatedAt()) || el.MovedAt().Lamport() <= el.CreatedAt().Lamport()+1 {
+			continue
+		}
+		n++
+		tk := time.NewTicket(el.MovedAt().Lamport()-1, 0, probeActor)
+		val, err := crdt.NewPrimitive("probe", tk)
+		if err != nil {
+			continue
+		}
+		op := operations.NewSet(obj.CreatedAt(), k, val, tk)
+		vv := time.NewVersionVector()
+		vv.Set(probeActor, tk.Lamport())
+		serverSeq++
+		c := change.New(change.NewID(uint32(n), serverSeq, tk.Lamport(), probeActor, vv), "", []operations.Operation{op}, nil)
+		pack := change.NewPack(d.Key(), d.Checkpoint().NextServerSeq(serverSeq), []*change.Change{c}, nil, nil)
+		pb, err := converter.ToChangePack(pack)
+		if err != nil {
+			continue
+		}
+		dec, err := converter.FromChangePack(pb)
+		if err != nil {
+			continue
+		}
+		before := d.Marshal()
+		if err := d.ApplyChangePack(dec); err != nil {
+			out = append(out, fmt.Sprintf("probe Set of %q: %v", k, err))
+			continue
+		}
+		if root, clone := d.Marshal(), cloneMarshal(d); root != clone {
+			out = append(out, fmt.Sprintf("after a remote Set of %q older than the member's position (%s, member created %s, positioned %s): document %s, copy handed to callbacks %s (before: %s)",
+				k, tk.ToTestString(), el.CreatedAt().ToTestString(), el.MovedAt().ToTestString(), trunc(root, 200), trunc(clone, 200), trunc(before, 200)))
+		}
+	}
+	return out
 }
 
 func (r *Run) docID() (types.ID, bool) {
